@@ -511,7 +511,7 @@ impl Property for C19 {
         vec!["DOT shape attributes are outside the statement (and pinned by test_dot_str)".into(), "ties in the magnitude sort may appear in any order (sort_unstable)".into(), "skip ranges are single intervals (Bound, Bound)".into()]
     }
     fn cases(&self, tier: Tier) -> usize {
-        tier.pick(40000, 250_000)
+        tier.pick(150000, 4_000_000)
     }
     fn strategy(&self, tier: Tier) -> BoxedStrategy<Case> {
         let _ = tier;
